@@ -2,38 +2,9 @@
 //! usage: rrtk-verif <quick|thorough> <ID> | rrtk-verif replay <file>
 #![allow(clippy::all)]
 #![allow(dead_code)]
-mod common;
-mod rnum;
-mod c01;
-mod c02;
-mod c03;
-mod c04;
-mod c05;
-mod c08;
-mod c09;
-#[path = "../../shared/devs.rs"]
-mod devs;
-#[path = "../../shared/sutcore.rs"]
-mod sutcore;
-#[path = "../../shared/workload.rs"]
-mod workload;
-mod c10;
-mod c11;
-mod c12;
-mod c13;
-mod c14;
-mod c15;
-mod c16;
-mod c17;
-mod c18;
-mod c19;
-mod c20;
-mod mp;
-mod sut;
-#[path = "../../shared/ref_interp.rs"]
-mod ref_interp;
 
-use common::*;
+use checks::common::*;
+use checks::*;
 
 macro_rules! dispatch {
     ($id:expr, $f:ident, $($arg:expr),*) => {
